@@ -123,6 +123,13 @@ TAdd ==
              /\ flags' = IF E.code = "ResourceExhausted" THEN flags ELSE flags \ {"quotaSuspect"}
              /\ UNCHANGED <<cfg, dest, out, bag, envv, faults, restarts, verified, pass, calls, hist, ctl>>
 
+\* a control call (GetRoot / get-sth / get-sth-consistency) that was already on its way when the pass was
+\* cancelled is still answered; the Controller discards the answer
+TStray ==
+  /\ (Ev("GetRoot") \/ Ev("STH") \/ Ev("Cons")) /\ Step
+  /\ pc = "unwind" /\ why \in {"cancel", "revoke"}
+  /\ UNCHANGED vars
+
 TIntegrate ==
   /\ Ev("Integrate") /\ Step
   /\ destSize < E.size /\ E.size <= Contig
@@ -160,7 +167,7 @@ Silent == /\ UNCHANGED l
              \/ (\E b \in bag : Take(b))
              \/ (\E h \in hold : Wake(h))
 
-TraceNext == TReset \/ TGetRoot \/ TSTH \/ TCons \/ TFetch \/ TAdd \/ TIntegrate \/ TGrow \/ TMaster \/ TCancel
+TraceNext == TReset \/ TGetRoot \/ TSTH \/ TCons \/ TStray \/ TFetch \/ TAdd \/ TIntegrate \/ TGrow \/ TMaster \/ TCancel
              \/ TRestart \/ TReturn \/ Silent \/ SkipGate \/ AbortOnQuota
 
 TraceView == <<cfg, srcSize, dest, destSize, pc, why, result, pos, root, sth, proved, gen, out, bag, hold,
